@@ -114,7 +114,13 @@ def family(seed, tier):
     g = scen.snapshot_gap_chain(seed, name="c14-snapgap")
     docs.append((g.s["name"], g.doc()))
     a = all_assets_chain(seed)
+    # the database of this run predates the newer asset lists: its balance table is brought up to date by the daemon's own
+    # migrations at start-up (the snapshot tables are created new); payouts may not depend on the history of the schema
+    a.control(legacySchema=["pre-v4", "pre-v5"][seed % 2])
     docs.append((a.s["name"], a.doc()))
+    if tier != "quick":
+        b = all_assets_chain(seed + 1, name="c14-allassets-fresh")
+        docs.append((b.s["name"], b.doc()))
     return docs
 
 
@@ -123,7 +129,7 @@ def main():
         rule="chains crossing the snapshot heights 144 and 288 (432 in thorough) with seeded holdings of three non-PEG assets over 8 addresses, movements "
              "between the snapshots (funds leaving, funds arriving late, an address created after the first snapshot, a transfer in the snapshot block), exact "
              "ties, total stake far below and far above 4,500 PEG x 144 (PEG price decides), a zero-rate asset and a snapshot height without rates, before and "
-             "after 2.0.2, and one chain in which every one of the 61 non-PEG tickers is held by some staker at a rate of its own; TLC recomputes stake_i from MIN(past, current), the floor shares, the dust and its admissible recipients, and compares PEG deltas "
+             "after 2.0.2, and one chain in which every one of the 61 non-PEG tickers is held by some staker at a rate of its own, run on a database whose balance table predates the newer asset lists and is migrated at start-up; TLC recomputes stake_i from MIN(past, current), the floor shares, the dust and its admissible recipients, and compares PEG deltas "
              "and both snapshot tables; non-trivial = every chain (each has a paying snapshot or a deliberate no-pay case)",
         corrupt=lcheck.corrupt_balance)
 
